@@ -140,6 +140,52 @@ func genC05(mode string) func(rng *Rng, sc *Scenario) {
 	}
 }
 
+// genC05Redispatch: a non-final handler forwards the request with
+// Router.HandleContext to a second route, and a handler of that nested chain
+// aborts: nothing of the outer chain may start afterwards either.
+func genC05Redispatch(rng *Rng, sc *Scenario) {
+	sc.Handlers = map[string][]Action{}
+	ng := rng.Intn(3)
+	for i := 0; i < ng; i++ {
+		sc.Program = append(sc.Program, RegOp{Op: "use", MW: []string{fmt.Sprintf("g%d", i)}})
+	}
+	na := rng.Range(1, 4) // middleware of the forwarding route
+	fwd := rng.Intn(na)
+	a := RegOp{Op: "route", Via: "verb", Methods: []string{"GET"}, Path: "/fa", H: "h0"}
+	for i := 0; i < na; i++ {
+		id := fmt.Sprintf("r%d", i)
+		a.MW = append(a.MW, id)
+		if i == fwd {
+			sc.Handlers[id] = []Action{{Op: "obs"}, {Op: "redispatch", S: "/fb"}, {Op: "obs"}}
+			if rng.Chance(1, 2) {
+				sc.Handlers[id] = append(sc.Handlers[id], Action{Op: "next"}, Action{Op: "obs"})
+			}
+		}
+	}
+	nb := rng.Range(0, 3)
+	b := RegOp{Op: "route", Via: "verb", Methods: []string{"GET"}, Path: "/fb", H: "h1"}
+	for i := 0; i < nb; i++ {
+		b.MW = append(b.MW, fmt.Sprintf("m%d", i))
+	}
+	// the aborter: one handler of the nested chain that is not in the outer one
+	cands := append(append([]string{}, b.MW...), "h1")
+	ab := cands[rng.Intn(len(cands))]
+	act := abortAction(rng)
+	if ab == "h1" || rng.Chance(1, 2) {
+		sc.Handlers[ab] = []Action{{Op: "obs"}, act, {Op: "obs"}}
+	} else {
+		sc.Handlers[ab] = []Action{{Op: "obs"}, act, {Op: "next"}, {Op: "obs"}}
+	}
+	sc.Program = append(sc.Program, a, b)
+	sc.Clients = []Client{{Reqs: []Req{{Method: "GET", Path: "/fa"}}}}
+	if rng.Chance(1, 2) {
+		sc.Clients = append(sc.Clients, Client{Reqs: []Req{{Method: "GET", Path: "/fb"}, {Method: "GET", Path: "/fa"}}})
+		sc.Schedule, _ = GenSchedule(rng, 2, 120)
+	}
+	sc.Pool = PoolCfg{Policy: rng.Pick([]string{"lifo", "dirty", "fifo"}), Seed: rng.U64()}
+	sc.Sites = GenSites(rng)
+}
+
 func checkC05(sc *Scenario) *CheckOut {
 	out := &CheckOut{Faults: map[string]int64{}}
 	res := RunConcurrent(sc)
@@ -303,5 +349,6 @@ func init() {
 	register(&Profile{Prop: "C05", Name: "single", Quick: 10000, Thorough: 600000, Gen: genC05("single"), Check: checkC05, Rule: rule, Faulty: true})
 	register(&Profile{Prop: "C05", Name: "concurrent", Quick: 6000, Thorough: 400000, Gen: genC05("concurrent"), Check: checkC05, Rule: rule, Faulty: true})
 	register(&Profile{Prop: "C05", Name: "long", Quick: 2000, Thorough: 100000, Gen: genC05("long"), Check: checkC05, Rule: rule, Faulty: true})
+	register(&Profile{Prop: "C05", Name: "redispatch-abort", Quick: 2000, Thorough: 100000, Gen: genC05Redispatch, Check: checkC05, Rule: rule, Faulty: true})
 	register(&Profile{Prop: "C05", Name: "overlimit", Quick: 300, Thorough: 20000, Gen: genC05("overlimit"), Check: checkC05, Rule: rule, Faulty: true})
 }
